@@ -611,10 +611,63 @@ def judge_wave(case, rec):
                           "wave-multi-table-proportion")
 
 
+# ------------------------------------------------------- only WEIGHTED valid counts present
+@st.composite
+def weighted_valid_only_case_st(draw):
+    """A weighted numeric-measure response that carries valid_count_weighted but no
+    valid_count_unweighted (the shape of the fixture mr-mean-weighted.json)."""
+    sc = draw(scen.scenario_st([("cat", "cat"), ("cat", "cat"), ("cat_date", "cat"),
+                                ("cat", "mr"), ("cat", "cat", "cat")],
+                               measure="always", stats=["mean"], min_valid=2, max_valid=4,
+                               min_n=3, weight_kinds=("int", "dyadic")))
+    sc["query"]["weighted"] = True
+    sc["query"]["measure"]["valid_counts"] = True
+    tx, inforce = draw(xforms.slice_insertions_st(sc, where="either", max_ins=3,
+                                                  allow_malformed=False))
+    sc["transforms"] = tx
+    sc["insertions"] = inforce
+    return sc
+
+
+def judge_weighted_valid_only(case, rec):
+    sv, q = case["survey"], case["query"]
+    resp = zz9enc.encode(sv, q)
+    if "valid_count_weighted" not in resp["result"]["measures"]:
+        return
+    resp["result"]["measures"].pop("valid_count_unweighted", None)
+    cube = lib.cube(resp, case["transforms"])
+    dims = apparent_dims(sv, q)
+    rec.event("shape=" + "x".join(case["shape"]))
+    tkeys = dims[0].keys if len(dims) == 3 else [None]
+    for part, tkey in zip(cube.partitions, tkeys):
+        orc = Oracle(sv, q, table_key=tkey)
+        rspecs, cspecs = _specs(part, orc, case)
+        wc = np.asarray(part.counts, dtype=float)
+        for i, r_ in enumerate(rspecs):
+            for j, c_ in enumerate(cspecs):
+                rd, cd = orc.is_diff(r_), orc.is_diff(c_)
+                if (rd or cd) and not (dims[-2].var.get("flavour") == "cat_date" and rd) \
+                        and not (dims[-1].var.get("flavour") == "cat_date" and cd):
+                    rec.nontrivial()
+                    rec.compared()
+                    if not np.isnan(wc[i, j]):
+                        rec.violation(
+                            "the response carries (weighted) valid counts, yet the count of the "
+                            "difference cell [%d,%d] (row %r, col %r) is %r, not NaN" % (
+                                i, j, r_, c_, wc[i, j]), "diff-count-weighted-valid-only")
+                elif not (rd or cd):
+                    rec.compared()
+                    if not close(wc[i, j], orc.count(r_, c_, True)):
+                        rec.violation("count [%d,%d] = %r, weighted valid respondents %r" % (
+                            i, j, wc[i, j], orc.count(r_, c_, True)), "count-weighted-valid-only")
+
+
 SUBCHECKS = [
     SubCheck("direct", direct_case_st(), judge_direct, quick=6000, thorough=80000),
     SubCheck("direct-strand", direct_strand_case_st(), judge_direct_strand, quick=1200,
              thorough=20000),
     SubCheck("merge", merge_case_st(), judge_merge, quick=6000, thorough=80000),
     SubCheck("wave", wave_case_st(), judge_wave, quick=4000, thorough=40000),
+    SubCheck("weighted-valid-only", weighted_valid_only_case_st(), judge_weighted_valid_only,
+             quick=800, thorough=8000),
 ]
